@@ -32,6 +32,28 @@ def weave_instances(tier, ob, prefix):
     return out
 
 
+def operand_instances(ob, prefix):
+    """do_align up to the DP call: which operands (sequence / profile, order, group size, scaled gap entries) the DP is handed"""
+    out = []
+    for ga, gb, la, lb in [(1, 1, 2, 3), (1, 1, 3, 2), (2, 1, 3, 2), (2, 1, 2, 3), (1, 2, 3, 2), (1, 2, 2, 3), (2, 2, 2, 3), (2, 2, 3, 2), (3, 2, 2, 2), (1, 3, 2, 2)]:
+        if ga == 1 and gb > 1:
+            pla, plb = lb, la
+        elif ga > 1 and gb == 1:
+            pla, plb = la, lb
+        else:
+            pla, plb = (la, lb) if la < lb else (lb, la)
+        d = {"VK_GA": ga, "VK_GB": gb, "VK_LENA": la, "VK_LENB": lb, "NOHAVE_AVX2": None, "VK_PLA": pla, "VK_PLB": plb, "VK_PATH_INIT": "{0,1,2,3,4}", "VK_OPERANDS_ONLY": None, "VK_LAST": None}
+        out.append(Inst(ob=ob, name="%s_a%d_b%d_la%d_lb%d" % (prefix, ga, gb, la, lb), harness="c01_doalign.c", defs=d,
+                        srcs=["lib/src/aln_setup.c", "lib/src/weave_alignment.c", "lib/src/aln_mem.c", "lib/src/task.c"],
+                        models=["models/vin.c", "models/msg.c", "models/qsort.c"], native_srcs=["lib/src/tldevel.c"],
+                        unwind=66, unwind_pat=MK_MSA_UNWIND + [("make_profile_n", r"while\(i--\)", max(la, lb) + 2), ("set_gap_penalties_n", r"while\(i--\)", max(la, lb) + 3),
+                                                               ("init_alnmem", r"i  < g", la + lb + 4), ("aln_runner", r"i <= 4", 6)],
+                        nb=64, ni=1, nf=3, timeout=300, mem_gb=4, funcs=["do_align", "make_profile_n", "set_gap_penalties_n", "init_alnmem"], cost=20,
+                        bound="node a: %d member(s) / length %d, node b: %d member(s) / length %d; residues, gap vectors, stored group profiles and penalties symbolic" % (ga, la, gb, lb),
+                        desc="operands handed to the DP by do_align"))
+    return out
+
+
 def valid_paths(la, lb):
     """all Hirschberg paths (partner of a_i or -1) satisfying the contract of harness/vk_path.h"""
     import itertools
